@@ -15,6 +15,7 @@ import (
 	"strings"
 	"sync"
 	"time"
+	"unicode"
 
 	"github.com/emersion/go-sasl"
 )
@@ -658,6 +659,12 @@ func encodeUTF8AddrUnitext(raw string) string {
 			out.WriteRune('\\')
 			out.WriteRune('x')
 			out.WriteRune('{')
+			out.WriteString(strings.ToUpper(strconv.FormatInt(int64(ch), 16)))
+			out.WriteRune('}')
+		case unicode.IsSpace(ch):
+			// Unicode white space (NEL, NBSP, ...) would be taken for a
+			// separator by parsers that split on white space.
+			out.WriteString(`\x{`)
 			out.WriteString(strings.ToUpper(strconv.FormatInt(int64(ch), 16)))
 			out.WriteRune('}')
 		default:
